@@ -52,7 +52,7 @@ def build(ctx):
     def em(name, sig, extra=(), must=('R7',), **kw):
         pc = r.function(F, sig, within=CLS, **kw)
         X.inline_helpers(r, F, pc, within=CLS, exclude={'wrapIndex', 'dataPtr', 'T', 'emplaceImpl'})
-        ctx.emit(name + '.body.inc', pc, subs=opt(SUBS) + list(extra), must_fire=list(must), typemap=TM)
+        ctx.emit(name + '.body.inc', pc, subs=opt(SUBS) + list(extra) + [('R1', r'(?<![\w.>:])Capacity\b', '((size_t)KCAPACITY)', 'opt')], must_fire=list(must), typemap=TM)   # Capacity: the template argument of the instantiation
     em('Mpmc_wrapIndex', r'static\s+size_t\s+wrapIndex\s*\(\s*size_t\s+i\s*\)', must=())
     em('Mpmc_emplaceImpl', r'bool\s+emplaceImpl\s*\(\s*Args&&\.\.\.\s*args\s*\)', must=('R7', 'R8', 'R12'),
        extra=[('R12', r'new\s*\(dataPtr\(slot\)\)\s*T\(std::forward<Args>\(args\)\.\.\.\);', 'S_construct(self, slot_i, args);', 1)])
@@ -88,7 +88,7 @@ def build(ctx):
     for cap, ru in insts:
         kb = probe(ctx, cap, ru)
         pow2 = (kb & (kb - 1)) == 0
-        d = {'KBUF': str(kb), 'KPOW2': '1' if pow2 else '0'}
+        d = {'KBUF': str(kb), 'KPOW2': '1' if pow2 else '0', 'KCAPACITY': str(cap)}
         inst = 'Capacity=%d,RoundUp=%s,kBufferSize=%d' % (cap, ru, kb)
         dx = dict(d); dx['WRAP_EXACT'] = None
         units.append(Unit('MPMC.wrapIndex', 'cbmc', S, 'wrapIndex', expect=[r'postcondition'], defines=dx, inst=inst))
